@@ -264,9 +264,10 @@ class _AbstractNativeDataType(KeyDataType):
     def __call__(self, item):
         try:
             self._check_native(self._as_packable(item))
-        except (struct.error, TypeError, ValueError):
+        except (struct.error, TypeError, ValueError, OverflowError):
             # PyPy can raise ValueError converting a negative number to a
-            # unsigned value.
+            # unsigned value.  An int too large for a float raises
+            # OverflowError.
             if isinstance(item, int):
                 raise TypeError("Value out of range", item)
             raise TypeError(self._error_description)
